@@ -63,8 +63,10 @@ def gen(tier, seed):
     rng = random.Random(seed * 7919 + 6)
     cases = []
     n_texts = 400 if tier == "quick" else 6000
-    for _ in range(n_texts):
+    for kt in range(n_texts):
         text = textgen.rand_text(rng)
+        if kt % 8 == 7:
+            text = textgen.BOM + text      # a file saved with a byte-order mark (the first line is treated apart)
         n = len(text)
         for _ in range(6):
             r = rng.random()
